@@ -51,18 +51,23 @@ class _modules_copyable:
     context switches.
     """
 
+    _singleton_lock = RLock()
+
     def __new__(cls, *args, **kwargs):
         """
-        Make this class a singleton (there exists at most one instance).
+        Make this class a singleton (there exists at most one instance). Its
+        state is initialised exactly once: re-initialising it on every use
+        would reset the reference count (and replace the lock) while other,
+        nested or concurrent, copies are still in flight.
         """
-        if not hasattr(cls, "__instance__"):
-            cls.__instance__ = super().__new__(cls, *args, **kwargs)
+        with cls._singleton_lock:
+            if not hasattr(cls, "__instance__"):
+                instance = super().__new__(cls, *args, **kwargs)
+                instance.lock = RLock()
+                instance.refcount = 0
+                instance.patched_table = False
+                cls.__instance__ = instance
         return cls.__instance__
-
-    def __init__(self):
-        self.lock = RLock()
-        self.refcount = 0
-        self.patched_table = False
 
     def __enter__(self):
         with self.lock:
